@@ -111,6 +111,7 @@ type Sim struct {
 	stats    map[string]int
 	viol     []Violation
 	trouble  []string
+	obsNode []nodeRef
 	obsBuf   []string // observations made by SUT goroutines during the current step
 	lastFaultStep int
 	lastFaultTime time.Time
@@ -194,6 +195,18 @@ func (s *Sim) signalWake() {
 func (s *Sim) observe(format string, a ...any) {
 	s.mu.Lock()
 	s.obsBuf = append(s.obsBuf, fmt.Sprintf(format, a...))
+	s.obsNode = append(s.obsNode, nil)
+	s.mu.Unlock()
+}
+
+// observeAt records that a goroutine of node n has reached a gate. If n is
+// dead when the step is over (it crashed in this very step, at a point inside
+// another of its goroutines) the record is dropped: whether the goroutine got
+// as far as the gate before the crash is a race inside the dying process.
+func (s *Sim) observeAt(n nodeRef, format string, a ...any) {
+	s.mu.Lock()
+	s.obsBuf = append(s.obsBuf, fmt.Sprintf(format, a...))
+	s.obsNode = append(s.obsNode, n)
 	s.mu.Unlock()
 }
 
@@ -239,9 +252,16 @@ func (s *Sim) logDecision(label string, n int) {
 
 func (s *Sim) flushObs() {
 	s.mu.Lock()
-	buf := s.obsBuf
-	s.obsBuf = nil
+	all, nodes := s.obsBuf, s.obsNode
+	s.obsBuf, s.obsNode = nil, nil
 	s.mu.Unlock()
+	var buf []string
+	for i, b := range all {
+		if i < len(nodes) && nodes[i] != nil && nodes[i].isDead() {
+			continue
+		}
+		buf = append(buf, b)
+	}
 	if len(buf) == 0 {
 		return
 	}
